@@ -982,6 +982,22 @@ options! {
     concurrent_immix_disable_concurrent_marking: bool              [always_valid] = false
 }
 
+/// Verification hook: an `Options` value for harnesses that cannot run `Options::default()` (which
+/// asks the OS for the amount of physical memory).  Everything is zero bytes except the three
+/// options the allocation slow path reads, which get their default values (stress testing off).
+/// The value must never be dropped or have any other option read.
+#[cfg(mmtk_verif)]
+impl Options {
+    pub fn verif_zeroed_no_stress() -> std::mem::ManuallyDrop<Options> {
+        let mut o: std::mem::ManuallyDrop<Options> =
+            std::mem::ManuallyDrop::new(unsafe { std::mem::zeroed() });
+        o.stress_factor.value = DEFAULT_STRESS_FACTOR;
+        o.analysis_factor.value = DEFAULT_STRESS_FACTOR;
+        o.precise_stress.value = true;
+        o
+    }
+}
+
 #[cfg(test)]
 mod tests {
     use super::DEFAULT_STRESS_FACTOR;
